@@ -356,7 +356,7 @@ func (fr *frame) execLoop(lp *loopInfo) {
 			delete(fr.in, lp.header)
 			return
 		}
-		if iter > 0 && !fr.e.feasibleSMT(g) {
+		if iter > 0 && fr.e.worthAsking(iter) && !fr.e.feasibleSMT(g) {
 			// the solver shows that no input inside the assumptions reaches another iteration
 			delete(fr.in, lp.header)
 			return
@@ -1045,4 +1045,13 @@ func (e *Engine) logShadow(fr *frame, ins ssa.Instruction, g *Term) {
 		return
 	}
 	fmt.Fprintf(e.shadowLog, "%s %s = %s  :: %s\n", fr.fn.Name(), v.Name(), desc, ins.String())
+}
+
+
+// worthAsking throttles solver feasibility queries at loop headers when they rarely prune anything.
+func (e *Engine) worthAsking(iter int) bool {
+	if e.feasN >= 40 && e.feasCut*20 < e.feasN {
+		return iter >= 4 && iter%4 == 0
+	}
+	return true
 }
